@@ -68,7 +68,7 @@ Qed.
 (* ---------- the model's pod values are the expected values over the recorded spec ---------- *)
 
 Lemma pod_shares_spec sp : pod_shares sp = want_pod_shares sp.
-Proof. unfold pod_shares, want_pod_shares. now rewrite sum_requests_spec. Qed.
+Proof. unfold pod_shares, want_pod_shares. now rewrite sum_requests_spec, shares_std. Qed.
 
 Lemma pod_mem_spec sp : pod_mem sp = want_pod_mem sp.
 Proof. unfold pod_mem, want_pod_mem, all_mem_limited, mem_limit, limited. rewrite sum_limits_spec. destruct (forallb _ sp); reflexivity || lia. Qed.
@@ -77,7 +77,7 @@ Lemma pod_quota_spec g sp : sp <> [] -> pod_quota g sp = want_pod_quota g sp.
 Proof.
   intro Hne. unfold pod_quota, want_pod_quota, all_cpu_limited, cpu_limit, limited.
   destruct (cfsOn g); [|reflexivity]. cbn [andb].
-  rewrite sum_limits_spec.
+  rewrite <- quota_std. rewrite sum_limits_spec.
   destruct (forallb (fun c => 0 <? amount (limC c)) sp) eqn:E.
   - pose proof (sum_pos_of_all_pos (fun c => amount (limC c)) sp Hne E) as Hpos.
     rewrite Z.add_0_l. apply scale_normalized.
@@ -134,12 +134,12 @@ Proof. intro H. unfold pod_out, spec_of. apply pod_out_spec_perm, filter_perm, H
 (* ---------- the model's container values are the expected values ---------- *)
 
 Lemma ctr_shares_spec c : ctr_shares c = want_ctr_shares c.
-Proof. unfold ctr_shares, want_ctr_shares. now rewrite pos_or_zero_declared. Qed.
+Proof. unfold ctr_shares, want_ctr_shares. now rewrite pos_or_zero_declared, shares_std. Qed.
 
 Lemma ctr_quota_spec g c : ctr_quota g c = want_ctr_quota g c.
 Proof.
   unfold ctr_quota, want_ctr_quota. destruct (cfsOn g); [|reflexivity]. cbn [andb].
-  rewrite pos_or_zero_declared.
+  rewrite <- quota_std. rewrite pos_or_zero_declared.
   destruct (limited (limC c)) eqn:E.
   - destruct (declared_limited _ E) as [-> Hpos]. apply scale_normalized.
     pose proof (quota_pos _ Hpos). unfold CFSQuotaMinValue in *. lia.
@@ -169,14 +169,14 @@ Qed.
 
 Lemma want_shares_le cs c : In c cs -> want_ctr_shares c <= want_pod_shares cs.
 Proof.
-  intro Hin. unfold want_ctr_shares, want_pod_shares. apply shares_mono.
+  intro Hin. unfold want_ctr_shares, want_pod_shares. rewrite <- !shares_std. apply shares_mono.
   apply (elem_le_sum (fun c => declared (reqC c))); [intros; apply declared_nonneg|exact Hin].
 Qed.
 
 Lemma want_quota_no_tighter g cs c :
   In c cs -> no_tighter (want_ctr_quota g c) (want_pod_quota g cs).
 Proof.
-  intro Hin. unfold no_tighter, want_ctr_quota, want_pod_quota.
+  intro Hin. unfold no_tighter, want_ctr_quota, want_pod_quota. rewrite <- !quota_std.
   destruct (cfsOn g); [|now left]. cbn [andb].
   destruct (all_cpu_limited cs) eqn:A; [|now left]. right.
   unfold all_cpu_limited in A. rewrite forallb_forall in A.
